@@ -708,6 +708,8 @@ class ParameterConfig:
       a subspace.
     """
     if not math.isfinite(self.num_feasible_values):
+      # Continuous parameters have no subspace, but the value is validated.
+      self._assert_feasible(value)
       return SearchSpace()
     value = trial.ParameterValue(value).cast_as_internal(self.type)
     self._assert_feasible(value)
